@@ -1,7 +1,7 @@
 """C13 - hex dumps are lossless (E1 product enumeration over the real hexdump/parse and the CLI -x route)."""
 import math
 
-from mc import core
+from mc import subchunk, core
 from mc.core import ChunkResult
 from mc.ref import hexdump as rhex
 
@@ -45,6 +45,8 @@ def plan(tier, seed):
     else:
         for lo in range(1, 257, 8):
             chunks.append({'k': 'layout', 'bpls': list(range(lo, lo + 8)), 'bpcs': list(range(1, 257))})
+    # the same under python -O (assertions stripped, __debug__ false)
+    chunks += [dict(c, optimize=True) for c in [{'k': 'rt_len'}, {'k': 'io', 'fmt': 0}, {'k': 'io', 'fmt': 1}, {'k': 'cli'}]]
     return chunks
 
 
@@ -228,6 +230,9 @@ def _cli_case(case, clidrv, pelgen):
 
 
 def run_chunk(chunk):
+    routed = subchunk.route(__name__, chunk)
+    if routed is not None:
+        return routed
     res = ChunkResult()
     k = chunk['k']
 
